@@ -56,7 +56,6 @@ def base_env() -> T.Dict[str, str]:
         'NINJA': NINJA_SHIM,
         'PYTHONDONTWRITEBYTECODE': '1',
         'PYTHONHASHSEED': os.environ.get('PYTHONHASHSEED', '0'),
-        'MESON_FORCE_BACKTRACE': '0',
     }
     if 'TMPDIR' in os.environ:
         env['TMPDIR'] = os.environ['TMPDIR']
